@@ -202,7 +202,51 @@ def binary_symbols(ctx: Ctx) -> None:
     ctx.check(ok_s, "BinaryNode.pc_after:size-symbol", f"<base>__size is the file length; found {[unparse(s) for s in syms]}")
 
 
+def incbin_symbol_name(ctx: Ctx) -> None:
+    """the symbols of `.incbin 'dir/file.bin'` are dir_file_bin and dir_file_bin__size: every `/` and every `.` of the path becomes `_`"""
+    init = ctx.repo.func(NODES, "BinaryNode.__init__")
+    path = init.params()[1]
+    sets_ = [n for n in walk_no_nested(init.node) if isinstance(n, ast.Assign) and unparse(n.targets[0]) == "self.symbol_base"]
+    if len(sets_) != 1:
+        raise AnalysisError("BinaryNode.__init__: self.symbol_base is not assigned exactly once")
+    v = sets_[0].value
+
+    def chain(e: ast.AST) -> tuple[str, dict[str, str]] | None:
+        """(root text, {old: new}) of a .replace(old, new) chain of string literals"""
+        reps: dict[str, str] = {}
+        while isinstance(e, ast.Call) and isinstance(e.func, ast.Attribute) and e.func.attr == "replace" and len(e.args) == 2 \
+                and all(isinstance(a, ast.Constant) and isinstance(a.value, str) for a in e.args):
+            reps[e.args[0].value] = e.args[1].value  # type: ignore[attr-defined]
+            e = e.func.value
+        return unparse(e), reps
+
+    from ..match import inline as _inl7, single_assignments as _sa7
+
+    direct = chain(_inl7(v, _sa7(init.node)))
+    if direct is not None and direct[0] == path and direct[1]:
+        ctx.check(direct[1] == {"/": "_", ".": "_"}, "BinaryNode.__init__:symbol-name", f"`/` and `.` of the path become `_`; replacements found {direct[1]}")
+        return
+    # accumulated in a loop over the separators: name = path; for sep in (...): name = name.replace(sep, "_")
+    if isinstance(v, ast.Name):
+        acc = v.id
+        loops = [n for n in walk_no_nested(init.node) if isinstance(n, ast.For) and isinstance(n.iter, (ast.Tuple, ast.List, ast.Constant)) and isinstance(n.target, ast.Name)]
+        steps = [(lp, s_) for lp in loops for s_ in lp.body if isinstance(s_, ast.Assign) and unparse(s_.targets[0]) == acc]
+        if len(steps) == 1:
+            lp, st = steps[0]
+            seps = [e.value for e in lp.iter.elts] if isinstance(lp.iter, (ast.Tuple, ast.List)) and all(isinstance(e, ast.Constant) for e in lp.iter.elts) else \
+                (list(lp.iter.value) if isinstance(lp.iter, ast.Constant) and isinstance(lp.iter.value, str) else None)
+            call = st.value
+            if seps is not None and isinstance(call, ast.Call) and isinstance(call.func, ast.Attribute) and call.func.attr == "replace" and len(call.args) == 2 \
+                    and unparse(call.args[0]) == lp.target.id and isinstance(call.args[1], ast.Constant):
+                ctx.check(unparse(call.func.value) == acc, "BinaryNode.__init__:symbol-name:accumulates",
+                          f"each separator is replaced in the name built so far; the step reads `{unparse(st)}` (restarting from `{unparse(call.func.value)}` keeps only the last replacement)")
+                ctx.check(set(seps) == {"/", "."} and call.args[1].value == "_", "BinaryNode.__init__:symbol-name", f"`/` and `.` of the path become `_`; separators {seps}")
+                return
+    raise AnalysisError(f"BinaryNode.__init__: symbol name `{unparse(v)[:60]}` is not a replace chain / separator loop over the path")
+
+
 def r4_text_and_binary(ctx: Ctx) -> None:
+    incbin_symbol_name(ctx)
     repo = ctx.repo
     bt = repo.func(NODES, "AsciiNode.binary_text")
     rets = returns_of(bt.node)
@@ -267,4 +311,15 @@ def ru_names_bound(ctx: Ctx) -> None:
     names_rule(ctx)
 
 
-RULES = [r1_field_packing, r2_directive_chain, r3_order_and_multiplicity, r4_text_and_binary, r5_layout_agreement, r6_address_advance, rb_binding_agreement, rm_no_process_lifetime_results, ru_names_bound]
+
+def r7_operand_literals_and_strings(ctx: Ctx) -> None:
+    """the bytes of a data directive are its operands' values and its string's characters: literal bases (C06.R4) and the quoted-string
+    scanner (C17.R4)"""
+    from .c06 import r4_literal_bases
+    from .c17 import r4_string_characters_all_tested
+
+    r4_literal_bases(ctx)
+    r4_string_characters_all_tested(ctx)
+
+
+RULES = [r1_field_packing, r2_directive_chain, r3_order_and_multiplicity, r4_text_and_binary, r5_layout_agreement, r6_address_advance, r7_operand_literals_and_strings, rb_binding_agreement, rm_no_process_lifetime_results, ru_names_bound]
